@@ -13,7 +13,7 @@ import (
 	"verifharness/lib"
 )
 
-const rule = "scenario whose trace has >=1 Subscribe return, >=1 receive or a blocked/stuck call, and a Close; distinct by the canonical trace"
+const rule = "scenario whose trace has >=1 Subscribe return, >=1 receive or a blocked/stuck call, and a Close; distinct by the canonical trace; race family (vrace-*): a spec with >=1 subscriber channel and a Close, distinct by the spec (mode, n, K, payload, broadcaster, closers)"
 
 type caseRec struct {
 	Scenario Scenario `json:"scenario"`
